@@ -28,7 +28,8 @@ def run(model, tier):
     per_class = {}
     for cname, opts in scope['classes'].items():
         cls = model.get_class(cname)
-        b, S, ev = analyse_class(model, cls, scope['inputs'], outspec, opaque=opts.get('opaque'))
+        b, S, ev = analyse_class(model, cls, scope['inputs'], outspec, opaque=opts.get('opaque'),
+                                 param_dims_spec=opts.get('param_dims'))
         findings_from(S, ev, PROP, 'C08.dim', res)
         anchored = [nm for nm, d, _ in ev.outputs if nm in outspec and isinstance(d, Lin)]
         unresolved = [nm for nm, d, _ in ev.outputs if nm in outspec and not isinstance(d, Lin) and d is not POLY]
